@@ -104,6 +104,8 @@ impl PkeSealingVersion for V1 {
         mac.update(b"\x01k1.seal.");
         mac.update(r.as_bytes());
         let (ek, n) = mac.finalize_reset().into_bytes().split();
+        #[cfg(paseto_rs_verif)]
+        let n = generic_array::GenericArray::from(paseto_core::verif::iv(n.into()));
 
         mac.update(b"\x02k1.seal.");
         mac.update(r.as_bytes());
@@ -173,6 +175,8 @@ impl PkeUnsealingVersion for V1 {
         mac.update(b"\x01k1.seal.");
         mac.update(r.as_bytes());
         let (ek, n) = mac.finalize().into_bytes().split();
+        #[cfg(paseto_rs_verif)]
+        let n = generic_array::GenericArray::from(paseto_core::verif::iv(n.into()));
 
         ctr::Ctr128BE::<aes::Aes256>::new(&ek, &n).apply_keystream(edk);
 
